@@ -8,7 +8,8 @@ From Verif.C04 Require Import Model Proofs ProofsKeys ProofsSet ProofsSetEq.
 Record obj_ok (o : iobj) : Prop := mkOk {
   ok_inv : exists l, Inv (i_names o) l;
   ok_dom : forall k, In k (n_names (i_names o)) <-> find k (i_vals o) <> None;
-  ok_nodup : NoDup (map fst (i_vals o)) }.
+  ok_nodup : NoDup (map fst (i_vals o));
+  ok_nodup_syms : NoDup (map fst (i_syms o)) }.
 
 Definition heap_ok (h : iheap) : Prop := forall i, obj_ok (ihget h i).
 
@@ -85,7 +86,7 @@ Qed.
 Lemma obj_ok_idx_sound : forall o, obj_ok o ->
   n_idxc (ensure_order (i_names o)) = 0 -> forall n, i_getown o (KIdx n) = None.
 Proof.
-  intros o [[l I] D _] Z n. unfold i_getown. simpl.
+  intros o [[l I] D _ _] Z n. unfold i_getown. simpl.
   destruct (find (KIdx n) (i_vals o)) eqn:F; auto.
   assert (In (KIdx n) (n_names (i_names o))) by (apply D; congruence).
   pose proof (idxc_zero_no_idx _ _ I Z _ H). discriminate.
@@ -97,28 +98,34 @@ Proof. intros h H i. apply obj_ok_idx_sound, H. Qed.
 (* ---- every object transformer keeps the invariant ---- *)
 
 Lemma obj_ok_0 : obj_ok iobj0.
-Proof. constructor; simpl; [exists []; apply Inv_init | intro; tauto | constructor]. Qed.
+Proof. constructor; simpl; [exists []; apply Inv_init | intro; tauto | constructor | constructor]. Qed.
 
 Lemma ok_ensure : forall o, obj_ok o -> obj_ok (i_ensure o).
 Proof.
-  intros o [[l I] D N]. constructor; simpl; auto.
+  intros o [[l I] D N N']. constructor; simpl; auto.
   - exists l. now apply Inv_ensure.
   - intro k. rewrite (Inv_ensure_set _ _ I). apply D.
 Qed.
 
+Lemma put_nodup : forall {A} k (a : A) l, NoDup (map fst l) -> NoDup (map fst (put k a l)).
+Proof.
+  intros A k a l N. destruct (find k l) eqn:F.
+  - rewrite put_keys_existing by congruence. exact N.
+  - rewrite put_keys_new by auto. apply NoDup_snoc; auto. intro H. apply find_in in H. auto.
+Qed.
+
 Lemma ok_store_existing : forall k v o, obj_ok o -> i_getown o k <> None -> obj_ok (i_store k v o).
 Proof.
-  intros k v o [[l I] D N] G. unfold i_store, i_getown in *.
-  destruct (is_sym k); constructor; simpl; eauto.
-  - intro k'. rewrite D, find_put. destruct (key_eqb k' k) eqn:E; [|tauto].
-    apply key_eqb_eq in E. subst. split; [discriminate|auto].
-  - now rewrite put_keys_existing.
+  intros k v o [[l I] D N N'] G. unfold i_store, i_getown in *.
+  destruct (is_sym k); constructor; simpl; eauto using put_nodup.
+  intro k'. rewrite D, find_put. destruct (key_eqb k' k) eqn:E; [|tauto].
+  apply key_eqb_eq in E. subst. split; [discriminate|auto].
 Qed.
 
 Lemma ok_store_new : forall k v o, obj_ok o -> i_getown o k = None -> obj_ok (i_store_new k v o).
 Proof.
-  intros k v o [[l I] D N] G. unfold i_store_new, i_getown in *.
-  destruct (is_sym k) eqn:Sk; constructor; simpl; eauto.
+  intros k v o [[l I] D N N'] G. unfold i_store_new, i_getown in *.
+  destruct (is_sym k) eqn:Sk; constructor; simpl; eauto using put_nodup.
   - exists (l ++ [k]). apply Inv_add; auto.
     destruct (mem_key k (n_names (i_names o))) eqn:M; auto.
     unfold mem_key in M. apply existsb_exists in M as (x & Hx & Ex). apply key_eqb_eq in Ex. subst x.
@@ -126,7 +133,6 @@ Proof.
   - intro k'. rewrite in_app_iff, D, find_put. simpl. destruct (key_eqb k' k) eqn:E.
     + apply key_eqb_eq in E. subst. split; [discriminate|auto].
     + split; [intros [H|[H|[]]]; auto; subst; now rewrite key_eqb_refl in E | auto].
-  - rewrite put_keys_new by auto. apply NoDup_snoc; auto. intro H. apply find_in in H. auto.
 Qed.
 
 Lemma names_del_set : forall s l k, Inv s l -> forall k', In k' (n_names (names_del k s)) <-> (k' <> k /\ In k' (n_names s)).
@@ -142,10 +148,11 @@ Qed.
 
 Lemma ok_delete : forall k o, obj_ok o -> obj_ok (i_delete_obj k o).
 Proof.
-  intros k o Ok. pose proof Ok as [[l I] D N]. unfold i_delete_obj.
+  intros k o Ok. pose proof Ok as [[l I] D N N']. unfold i_delete_obj.
   destruct (i_getown o k) as [ip|] eqn:G; auto.
   destruct (match ip with IProp p => vp_configurable p | IBare _ => true end); auto.
-  destruct (is_sym k) eqn:Sk; constructor; simpl; eauto.
+  destruct (is_sym k) eqn:Sk; constructor; simpl; eauto;
+    try (apply (del_keys_nodup k (i_syms o) N')).
   - exists (filter (neqk k) l). now apply Inv_del.
   - destruct (del_keys_nodup k (i_vals o) N) as (N1 & N2 & N3).
     intro k'. rewrite (names_del_set _ _ k I), D.
@@ -157,7 +164,7 @@ Proof.
 Qed.
 
 Lemma ok_prevent : forall o, obj_ok o -> obj_ok (i_prevent o).
-Proof. intros o [I D N]. constructor; auto. Qed.
+Proof. intros o [I D N N']. constructor; auto. Qed.
 
 Lemma ok_define : forall k d o, obj_ok o -> obj_ok (i_define_obj k d o).
 Proof.
@@ -282,7 +289,7 @@ Proof.
   - exact H.
   - unfold i_setproto. destruct (ofn_eqb _ _); [exact H|]. destruct (negb _); [exact H|].
     destruct (i_reaches _ _ _ _); [exact H|]. simpl. apply ok_iupd; auto.
-    destruct (H o) as [I D N]. constructor; auto.
+    destruct (H o) as [I D N N']. constructor; auto.
 Qed.
 
 Definition irun (h : iheap) (ops : list op) : iheap := fold_left (fun h o => fst (fst (istep h o))) ops h.
@@ -304,3 +311,164 @@ Lemma set_eq_spec_ok : forall h hs o k num v r,
   snd (fst (istep h (OSet o k num v r))) = snd (fst (sstep hs (OSet o k num v r))) /\
   snd (istep h (OSet o k num v r)) = snd (sstep hs (OSet o k num v r)).
 Proof. intros. apply set_eq_spec; auto using heap_ok_idx_sound. Qed.
+
+(* ---- the representation invariant of the stored properties along every history ---- *)
+
+Definition obj_wf (o : iobj) : Prop := forall k ip, i_getown o k = Some ip -> iprop_wf ip = true.
+
+Lemma heap_wf_obj : forall h, heap_wf h <-> forall i, obj_wf (ihget h i).
+Proof. unfold heap_wf, obj_wf. split; eauto. Qed.
+
+Lemma wf_iupd : forall h i f, heap_wf h -> obj_wf (f (ihget h i)) -> heap_wf (iupd h i f).
+Proof.
+  intros h i f H F. apply heap_wf_obj. intro j. rewrite ihget_iupd. destruct (_ && _) eqn:E.
+  - apply andb_prop in E as [E _]. apply Nat.eqb_eq in E. now subst.
+  - now apply heap_wf_obj.
+Qed.
+
+Lemma wf_store : forall k v o, obj_wf o -> iprop_wf v = true -> obj_wf (i_store k v o).
+Proof. intros k v o W V k' ip. rewrite getown_store. destruct (key_eqb k' k); [intro H; now injection H as <-|apply W]. Qed.
+Lemma wf_store_new : forall k v o, obj_wf o -> iprop_wf v = true -> obj_wf (i_store_new k v o).
+Proof. intros k v o W V k' ip. rewrite getown_store_new. destruct (key_eqb k' k); [intro H; now injection H as <-|apply W]. Qed.
+
+Lemma wf_ensure : forall o, obj_wf o -> obj_wf (i_ensure o).
+Proof. intros o W k ip. rewrite getown_ensure. apply W. Qed.
+
+Lemma wf_define : forall k d o, obj_wf o -> obj_wf (i_define_obj k d o).
+Proof.
+  intros k d o W. unfold i_define_obj, goja_checked. destruct (desc_wf d) eqn:Hd; auto.
+  assert (Wk : oiprop_wf (i_getown o k) = true) by (destruct (i_getown o k) eqn:Q; simpl; eauto).
+  pose proof (define_wf (i_ext o) (i_getown o k) d Hd Wk) as Dw.
+  destruct (GojaDefine (i_ext o) (i_getown o k) d) as [np|]; auto. simpl in Dw.
+  destruct (i_getown o k); auto using wf_store, wf_store_new.
+Qed.
+
+Section DelFind.
+Context {A : Type}.
+Lemma find_del_sub : forall k k' (l : list (key * A)) a, NoDup (map fst l) ->
+  find k' (del k l) = Some a -> find k' l = Some a.
+Proof.
+  intros k k' l a N H. destruct (key_eqb k' k) eqn:E.
+  - apply key_eqb_eq in E. subst. rewrite (proj1 (proj2 (del_keys_nodup k l N))) in H. discriminate.
+  - now rewrite find_del_other in H.
+Qed.
+End DelFind.
+
+Lemma wf_delete : forall k o, obj_ok o -> obj_wf o -> obj_wf (i_delete_obj k o).
+Proof.
+  intros k o [_ _ N N'] W. unfold i_delete_obj.
+  destruct (i_getown o k) as [ip0|]; auto.
+  destruct (match ip0 with IProp p => vp_configurable p | IBare _ => true end); auto.
+  intros k' ip. unfold i_getown. destruct (is_sym k) eqn:Sk; simpl; destruct (is_sym k') eqn:Sk'; intro H.
+  - apply (W k' ip). unfold i_getown. rewrite Sk'. eapply find_del_sub; eauto.
+  - apply (W k' ip). unfold i_getown. now rewrite Sk'.
+  - apply (W k' ip). unfold i_getown. now rewrite Sk'.
+  - apply (W k' ip). unfold i_getown. rewrite Sk'. eapply find_del_sub; eauto.
+Qed.
+
+Lemma wf_prevent : forall o, obj_wf o -> obj_wf (i_prevent o).
+Proof. intros o W k ip H. apply (W k ip H). Qed.
+
+Lemma wf_seal_key : forall o k, obj_wf o -> obj_wf (i_seal_key o k).
+Proof.
+  intros o k W. unfold i_seal_key. destruct (i_getown o k) as [[v|p]|] eqn:G; auto using wf_define.
+  apply wf_store; auto. pose proof (W k _ G) as Wp. destruct p as [pv pw pc pe pa pg ps]. exact Wp.
+Qed.
+Lemma wf_freeze_key : forall o k, obj_wf o -> obj_wf (i_freeze_key o k).
+Proof.
+  intros o k W. unfold i_freeze_key. destruct (i_getown o k) as [[v|p]|] eqn:G; auto using wf_define.
+  apply wf_store; auto. pose proof (W k _ G) as Wp. destruct p as [pv pw pc pe pa pg ps].
+  unfold iprop_wf, vprop_wf in *. simpl in *. destruct pa; simpl in *; [exact Wp|].
+  destruct pv, pg, ps; simpl in *; auto.
+Qed.
+Lemma wf_fold : forall (f : iobj -> key -> iobj) ks o, (forall o k, obj_wf o -> obj_wf (f o k)) -> obj_wf o -> obj_wf (fold_left f ks o).
+Proof. induction ks; simpl; auto. Qed.
+Lemma wf_seal : forall o, obj_wf o -> obj_wf (i_seal o).
+Proof. intros. unfold i_seal. apply wf_fold; auto using wf_seal_key, wf_ensure, wf_prevent. Qed.
+Lemma wf_freeze : forall o, obj_wf o -> obj_wf (i_freeze o).
+Proof. intros. unfold i_freeze. apply wf_fold; auto using wf_freeze_key, wf_ensure, wf_prevent. Qed.
+
+Lemma wf_walk : forall fuel h own o k num v r,
+  heap_wf h -> heap_wf (walk_heap (i_setwalk fuel h own o k num v r)).
+Proof.
+  induction fuel as [|f IH]; intros h own o k num v r H; [exact H|].
+  pose proof (proj1 (heap_wf_obj h) H) as Ho.
+  simpl. destruct own.
+  - destruct (i_getown (ihget h o) k) as [[v0|p]|] eqn:G.
+    + unfold walk_heap; simpl. apply wf_iupd; auto using wf_store.
+    + destruct (negb (vp_isWritable p)) eqn:Wr; [exact H|].
+      unfold i_prop_set. destruct (vp_setter p) eqn:St; unfold walk_heap; simpl; auto.
+      apply wf_iupd; auto. apply wf_store; auto.
+      pose proof (Ho o k _ G) as Wp. unfold vp_isWritable in Wr. rewrite St in Wr.
+      destruct p as [pv pw pc pe pa pg ps]. simpl in *. subst ps.
+      destruct pa; simpl in *.
+      * destruct pv, pw; simpl in *; try discriminate.
+      * destruct pv, pg; simpl in *; try discriminate; auto.
+    + destruct (i_proto (ihget h o)) as [p|].
+      * specialize (IH h false p k false v o H).
+        destruct (i_setwalk f h false p k false v o) as [[[h1 res] handled] ev].
+        unfold walk_heap in *; simpl in *.
+        destruct handled; simpl; auto.
+        destruct (negb (i_ext (ihget h1 o))); simpl; auto.
+        apply wf_iupd; auto. apply wf_store_new; auto. apply heap_wf_obj; auto.
+      * unfold walk_heap; simpl. destruct (negb (i_ext (ihget h o))); simpl; auto.
+        apply wf_iupd; auto using wf_store_new.
+  - set (h0 := if num && is_idx k then iupd h o i_ensure else h).
+    assert (H0 : heap_wf h0).
+    { unfold h0. destruct (num && is_idx k); auto. apply wf_iupd; auto using wf_ensure. }
+    destruct (if num && is_idx k && Nat.eqb (n_idxc (i_names (ihget h0 o))) 0 then None else i_getown (ihget h0 o) k)
+      as [[v0|p]|].
+    + exact H0.
+    + destruct (negb (vp_isWritable p)); [exact H0|]. destruct (vp_setter p); exact H0.
+    + destruct (i_proto (ihget h0 o)) as [p|]; [|exact H0].
+      destruct (Nat.eqb r p); simpl.
+      * specialize (IH h0 true p k false v p H0).
+        destruct (i_setwalk f h0 true p k false v p) as [[[h1 res] hd] ev]. exact IH.
+      * apply IH; auto.
+Qed.
+
+Lemma wf_set : forall h o k num v r, heap_wf h -> heap_wf (fst (fst (i_set h o k num v r))).
+Proof.
+  intros h o k num v r H. unfold i_set.
+  destruct (Nat.eqb r o).
+  - pose proof (wf_walk (S (S (length h))) h true o k num v o H) as W.
+    destruct (i_setwalk (S (S (length h))) h true o k num v o) as [[[h1 res] hd] ev]. exact W.
+  - pose proof (wf_walk (S (S (length h))) h false o k num v r H) as W.
+    destruct (i_setwalk (S (S (length h))) h false o k num v r) as [[[h1 res] hd] ev].
+    unfold walk_heap in W; simpl in W.
+    pose proof (proj1 (heap_wf_obj h1) W) as Wo.
+    destruct hd; simpl; auto.
+    destruct (i_getown (ihget h1 r) k) as [[v0|p]|]; simpl.
+    + apply wf_iupd; auto using wf_define.
+    + destruct (vp_accessor p); simpl; auto. destruct (negb (vp_writable p)); simpl; auto.
+      apply wf_iupd; auto using wf_define.
+    + apply wf_iupd; auto using wf_define.
+Qed.
+
+Lemma istep_wf : forall h op, heap_ok h -> heap_wf h -> heap_wf (fst (fst (istep h op))).
+Proof.
+  intros h op K H. pose proof (proj1 (heap_wf_obj h) H) as Ho. destruct op; cbn [istep].
+  - apply wf_iupd; auto using wf_define.
+  - pose proof (wf_set h o k num v r H) as W. destruct (i_set h o k num v r) as [[h1 b] ev]. exact W.
+  - destruct (i_get (S (S (length h))) h o k r). exact H.
+  - exact H.
+  - exact H.
+  - apply wf_iupd; auto using wf_delete.
+  - apply wf_iupd; auto using wf_ensure.
+  - apply wf_iupd; auto using wf_prevent.
+  - apply wf_iupd; auto using wf_freeze.
+  - apply wf_iupd; auto using wf_seal.
+  - apply wf_iupd; auto using wf_ensure.
+  - apply wf_iupd; auto using wf_ensure.
+  - exact H.
+  - exact H.
+  - unfold i_setproto. destruct (ofn_eqb _ _); [exact H|]. destruct (negb _); [exact H|].
+    destruct (i_reaches _ _ _ _); [exact H|]. simpl. apply wf_iupd; auto.
+    intros k ip Q. apply (Ho o k ip Q).
+Qed.
+
+Lemma irun_ok_wf : forall ops h, heap_ok h -> heap_wf h -> heap_ok (irun h ops) /\ heap_wf (irun h ops).
+Proof.
+  unfold irun. induction ops as [|o r IH]; simpl; intros h K W; auto.
+  apply IH; auto using istep_ok, istep_wf.
+Qed.
